@@ -33,58 +33,31 @@ Theorem C05_pick_ok : forall c code s d s' x',
     ~ In r (explicit c code) /\ ~ In r (param_regs c) /\ ~ In r (map snd (locals s)).
 Proof. exact p_pick_ok. Qed.
 
-(* (3) completeness of the scan for named registers.  [mentioned] is syntactic occurrence anywhere
-       in the stream, also inside difficulty switches. *)
-Theorem C05_explicit_regs_complete_fixed : forall code r,
-  mentioned code r <-> In r (explicit_regs_deep code).
-Proof. exact explicit_regs_deep_complete. Qed.
+(* (3) completeness of the scan for named registers (get_explicitly_used_regs as gen/regs.py finds
+       it in the source).  [mentioned] is syntactic occurrence anywhere in the stream, also inside
+       difficulty switches. *)
+Theorem C05_explicit_regs_complete : forall code r,
+  mentioned code r <-> In r (explicit_regs_sel gen_explicit_deep code).
+Proof. exact p_explicit_regs_complete. Qed.
 
-Theorem C05_explicit_regs_top_sound : forall code r,
-  In r (explicit_regs_top code) -> mentioned code r.
-Proof. exact explicit_regs_top_sound. Qed.
-
-(* defect #3: the scan of the pinned source misses registers inside difficulty switches *)
-Theorem C05_explicit_regs_complete_refuted :
-  exists code r, mentioned code r /\ ~ In r (explicit_regs_top code).
-Proof. exact explicit_regs_complete_refuted. Qed.
-
-Theorem C05_f03_collides :
-  match assign_registers (th06_cfg explicit_regs_top) f03_code with
-  | Ok (_, code') => existsb (fun x => match x with
-                                       | Instr 200 _ _ (Known [Raw (SReg r _); DiffSwitch (Some (Raw (SReg r' _)) :: _)]) => r =? r'
-                                       | _ => false
-                                       end) code'
-  | _ => false
-  end = true.
-Proof. exact f03_collides. Qed.
-
-(* ... and exactly those: on code without a register inside a switch the pinned scan is complete *)
-Theorem C05_explicit_regs_complete_guarded : forall deep code r,
-  deep = true \/ switch_reg_free code = true ->
-  mentioned code r -> In r (explicit_regs_sel deep code).
-Proof. exact explicit_sel_complete. Qed.
-
-(* (2) + (3): the picked register is not mentioned anywhere in the code, for the scan in force
-       (gen_explicit_deep is read off the source by gen/regs.py) under the exact guard, and
-       unconditionally for the fixed scan *)
-Theorem C05_no_collision_fixed :
+(* (2) + (3): the picked register is not mentioned anywhere in the code *)
+Theorem C05_no_collision :
   forall c code s d s' x',
-    cfg_ok c -> explicit c = explicit_regs_deep -> True -> reachable c code s ->
+    cfg_ok c -> explicit c = explicit_regs_sel gen_explicit_deep -> True -> reachable c code s ->
     step c (clash c (explicit c code)) s (RegAlloc d) = Ok (s', x') ->
     exists r t,
       locals s' = (d, r) :: locals s /\ tyof c d = Some t /\ In r (general c t) /\
       ~ mentioned code r /\ ~ In r (param_regs c) /\ ~ In r (map snd (locals s)).
-Proof. exact p_no_collision_fixed. Qed.
+Proof. exact p_no_collision. Qed.
 
-Theorem C05_no_collision_current :
-  forall c code s d s' x',
-    cfg_ok c -> explicit c = explicit_regs_sel gen_explicit_deep ->
-    (gen_explicit_deep = true \/ switch_reg_free code = true) -> reachable c code s ->
-    step c (clash c (explicit c code)) s (RegAlloc d) = Ok (s', x') ->
-    exists r t,
-      locals s' = (d, r) :: locals s /\ tyof c d = Some t /\ In r (general c t) /\
-      ~ mentioned code r /\ ~ In r (param_regs c) /\ ~ In r (map snd (locals s)).
-Proof. exact p_no_collision_current. Qed.
+(* defect #3 (fixed in 4000fd0): `int x = 7; ins_200(x, (I0 : 5 : 6 : 7)); ins_200(x, 1);` in a TH06 sub
+   puts x into I1, not into I0 *)
+Example C05_f03_avoids_switch_register :
+  match assign_registers (th06_cfg (explicit_regs_sel gen_explicit_deep)) f03_code with
+  | Ok (_, Instr _ _ _ (Known [Raw (SReg r _); _]) :: _) | Ok (_, _ :: Instr _ _ _ (Known [Raw (SReg r _); _]) :: _) => r
+  | _ => 0
+  end = -10002.
+Proof. exact f03_fixed. Qed.
 
 (* (4) the result: same statements in the same order with the same opcode / time / difficulty,
        arguments unchanged except Local -> register of the same storage type, no Local left, and
